@@ -54,12 +54,17 @@ TABLE = [
      "after a batch was refused half-way through Append, its rows stayed in the shared record builder and the next valid batch panicked with 'value is less than previous value'"),
     ("fix: batches with more parents than 16-bit", "C08", "no-panic", "", "overlimit-panic", 3000,
      "more than 65,535 groups of attributes / events / links, or more than 65,536 ids, panicked instead of returning an error"),
+    ("fix: lists and maps with more than 131,072", "C01", "decode-ok", "", "long-list-or-map", 8000,
+     "a span / event / link / resource / scope attribute holding a list or map of more than 131,072 elements was encoded but rejected by the consumer (CBOR library default decoding limits): the whole batch was lost"),
+    ("fix: lists and maps with more than 131,072", "C02", "decode-ok", "", "long-list-or-map", 8000,
+     "a log body or attribute holding a list or map of more than 131,072 elements was encoded but rejected by the consumer (CBOR library default decoding limits): the whole batch was lost"),
 ]
 
 # recorded findings: property, clause, feature substring, witness file name, runs
 FINDINGS = [
     ("C04", "decode-ok", "class=default-consumer-memory-limit", "finding-dictionary-bytes-vs-memory-limit.json", 12000),
     ("C02", "decode-ok", "class=default-consumer-memory-limit", "finding-dictionary-bytes-vs-memory-limit.json", 12000),
+    ("C14", "monotone", "class=after-refusal", "finding-inuse-left-after-refusal.json", 800),
 ]
 
 def sh(cmd, **kw):
